@@ -23,7 +23,7 @@ RULE = (
     "of character classes in the candidate, accepted?)."
 )
 SHARDS = {"quick": 16, "thorough": 16}
-TIMEOUT = {"quick": 240, "thorough": 3000}
+TIMEOUT = {"quick": 300, "thorough": 5400}
 MIN_EVALS = {"quick": 8000, "thorough": 150000}
 CASES = {"quick": 300, "thorough": 6000}
 STEPS = {"quick": 10, "thorough": 24}
